@@ -491,7 +491,7 @@ void run(vf::Ctx &c) {
   bool deep = part == 0 ? !c.thorough() : (part == 3 || part == 4);
   int own, cfg, start = 0;
   if (deep) {
-    const int *k = kCombos[c.pick("combo", part == 0 ? 6 : part == 3 ? 3 : 2)];
+    const int *k = kCombos[c.pick("combo", part == 0 ? 6 : part == 3 ? 2 : 1)];
     own = k[0]; cfg = k[1]; start = k[2];
   } else {
     own = c.pick("ownership-pass", 2);
